@@ -730,12 +730,14 @@ All but the first occurrence will be discarded/removed ...""".format(
             if c > 1:
                 duplicates_to_remove.extend([item] * (c - 1))
 
-        # Actually remove all but the first occurrence of duplicate decays
-        for tree in reversed(self._parsed_decays):  # type: ignore[arg-type]
-            val = tree.children[0].children[0].value
+        # Actually remove all but the first occurrence of duplicate decays.
+        # Remove by position: Lark trees compare equal when their content is the same,
+        # so removing by value would drop the first of two identical blocks.
+        for i in reversed(range(len(self._parsed_decays))):  # type: ignore[arg-type]
+            val = self._parsed_decays[i].children[0].children[0].value  # type: ignore[index]
             if val in duplicates_to_remove:
                 duplicates_to_remove.remove(val)
-                self._parsed_decays.remove(tree)  # type: ignore[union-attr]
+                del self._parsed_decays[i]  # type: ignore[union-attr]
 
     @property
     def number_of_decays(self) -> int:
